@@ -209,3 +209,39 @@ func RunNative(h func()) (outcome string) {
 // GoCalls: the number of go statements executed so far on this path (symbolic executor only: goroutines are
 // recorded, not run; natively -1).
 func GoCalls() int { return -1 }
+
+// Secret marks the symbolic inputs inside vs as secret: from here on, under the symbolic executor, every text sink
+// the code reaches (fmt.Errorf, errors.New, status errors, the fmt print family, the logging package) carries the
+// obligation that what it formats does not depend on them (DESIGN 5/C05, engine/symex/secret.go). Natively a no-op.
+func Secret(vs ...interface{}) {}
+
+// OneWay is the model of a one-way function (private key -> public key): under the symbolic executor an
+// uninterpreted function whose result counts as public; natively (and on constant input) a fixed mixing function.
+func OneWay(in []byte, n int) []byte {
+	out := make([]byte, n)
+	var h uint32 = 2166136261
+	for i := 0; i < n; i++ {
+		for _, b := range in {
+			h = (h ^ uint32(b)) * 16777619
+		}
+		h = (h ^ uint32(i)) * 16777619
+		out[i] = byte(h >> 13)
+	}
+	return out
+}
+
+// TextHasSecret: does the text contain one of the secret encodings? Native side of the secret-free-text obligation
+// (under the symbolic executor the sinks themselves are the obligations and this returns false).
+func TextHasSecret(text string, secrets ...string) bool {
+	for _, s := range secrets {
+		if s == "" {
+			continue
+		}
+		for i := 0; i+len(s) <= len(text); i++ {
+			if text[i:i+len(s)] == s {
+				return true
+			}
+		}
+	}
+	return false
+}
